@@ -33,12 +33,31 @@ def gen_c15(rng, oracle, index, tier="quick"):
     nmodels = rng.choice([1, 1, 2, 3])
     for _ in range(nmodels):
         g.new_model(want_cfg=rng.random() < 0.55)
+    rawpoly = _new_rawpoly(g, rng) if rng.random() < 0.25 else None
     nreq = rng.randint(3, 12 if tier == "quick" else 20)
     done = 0
     guard = 0
     while done < nreq and guard < 200:
         guard += 1
         if g.step_iterators():
+            continue
+        if rawpoly and rng.random() < 0.3:
+            # a request served straight from a hand-built configurator polyhedron (columns in the caller's order)
+            op = {"op": "call", "h": rawpoly, "m": "select"}
+            g.handles[rawpoly]["info"] = g.handles[rawpoly]["fake_info"]
+            try:
+                spec = g.solver_spec(rawpoly, allow_builtin=False)
+                npr = rng.choice([1, 1, 2, 3])
+                op["a"] = {"prios": [g.weights(rawpoly, allow_zero=False) for _ in range(npr)], "solver": spec}
+                g._consume(op)
+            finally:
+                g.handles[rawpoly]["info"] = None
+            before = len(g.ops)
+            g.emit(op)
+            if len(g.ops) > before:
+                g.events.append(("select", "rawpoly", _spec_tags(op)))
+                g.hit("c15:request-on-hand-built-polyhedron")
+            done += 1
             continue
         h = g.pick_target(kinds=("prop", "cfg"))
         kind = g.handles[h]["kind"]
@@ -70,6 +89,32 @@ def gen_c15(rng, oracle, index, tier="quick"):
             g.events.append(("drain", "it", ()))
     meta = {"profile": p, "fired": g.fired, "events": g.events, "skipped": g.skipped, "hits": g.hits}
     return g.ops, g.refs, meta
+
+
+RAW_IDS = ["x2", "x10", "x9", "b", "B", "a", "A1", "item", "item2", "item10", "k", "Z"]
+
+
+def _new_rawpoly(g, rng):
+    """ge_polyhedron_config built by hand: every proposition yields id-sorted columns, a caller need not"""
+    n = rng.randint(2, 5)
+    ids = rng.sample(RAW_IDS, n)            # sampled order = column order (mostly not sorted)
+    bnds = {i: rng.choice([(0, 1), (0, 1), (0, 1), (0, 2), (-1, 1)]) for i in ids}
+    rows = [[rng.choice([-1, 0, 0, 1])] + [rng.choice([0, 0, 1, 1, -1, 2]) for _ in ids] for _ in range(rng.choice([0, 1, 2, 3]))]
+    vs = [[0, 1, 1]] + [[i, bnds[i][0], bnds[i][1]] for i in ids]
+    dpv = None if rng.random() < 0.3 else [rng.choice([-1, -1, -2, -3]) for _ in ids]
+    ph = g.fresh("p")
+    g.emit({"op": "new", "h": ph, "recipe": ["rawpoly", rows, "int64", vs, dpv]})
+    if ph not in g.handles:
+        return None
+    box = 1
+    for i in ids:
+        box *= bnds[i][1] - bnds[i][0] + 1
+    g.handles[ph]["info"] = None
+    g.handles[ph]["fake_info"] = {"kind": "poly", "top": None, "leaves": {i: bnds[i] for i in ids}, "comps": {}, "box": box,
+                                  "bool": False, "has_default": False, "solver_safe": True}
+    g.events.append(("new-rawpoly", "sorted" if ids == sorted(ids) else "unsorted", ()))
+    g.hit("c15:hand-built-polyhedron:" + ("sorted-columns" if ids == sorted(ids) else "unsorted-columns"))
+    return ph
 
 
 def _spec_tags(op):
@@ -130,6 +175,10 @@ def aux_for(ops, mask, cache):
         if a.get("solver") is None:
             continue
         h = op["h"]
+        if cr.get(h) is not None and ops[cr[h]]["op"] == "new" and ops[cr[h]]["recipe"][0] == "rawpoly":
+            aux[k] = {"dump": None, "flatten": None, "named": None, "rawpoly": True,
+                      "poly": _query(ops, k, {"op": "call", "h": h, "m": "dump"}, mask, cache)}
+            continue
         dump = _query(ops, k, {"op": "call", "h": h, "m": "flatten"}, mask, cache)
         top = engine.reference(ops, cr[h], mask, cache)
         d = {"dump": top.get("obj"), "flatten": dump.get("v"), "named": _named(ops, cr, h)}
@@ -265,7 +314,15 @@ def verify(ops, sut, aux, mask, cache, stats=None):
             for i, v in req:
                 # the number the library was actually handed (an integral float carries 53 bits)
                 w[i] = (int(float(v[1])) if v[0] == "fl" else int(v[1])) if isinstance(v, list) else v
-            if is_select:
+            if is_select and ax.get("rawpoly"):
+                row0 = [x[1] if isinstance(x, list) else x for x in ppoly["dpv"][3]]
+                row1 = [w.get(i, 0) for i in col_ids]
+                try:
+                    want = _shadow([row0, row1], mask, cache)
+                except procs.HarnessError:
+                    intended.append(None)
+                    continue
+            elif is_select:
                 dp = dict((kv[0], kv[1]) for kv in ax["prios"]["v"][1])
                 try:
                     row0 = [dp[i] for i in col_ids]
